@@ -160,6 +160,11 @@ class IniScenario:
         self.group = r.choice(["logger", "logger", "log2"])
         self.via_settings = r.random() < 0.3
         self.msgs = gen_msgs(r, r.randint(1, 8))
+        if self.file and r.random() < 0.15:
+            # "0 = keep every rotated file", said explicitly, and enough output for more rotations than any default keeps
+            self.fopt["L"], self.fopt["N"] = 150, 0
+            self.keys_text["max_file_size"], self.keys_text["max_file_count"] = "150", "0"
+            self.msgs = gen_msgs(r, r.randint(30, 40))
 
     def write(self):
         self.dir.mkdir(parents=True, exist_ok=True)
